@@ -16,7 +16,7 @@ import sys
 import time
 from pathlib import Path
 
-VERIF = Path("/verif")
+VERIF = Path(__file__).resolve().parents[1]   # /verif, or a snapshot of it (vp run)
 COQ = VERIF / "coq"
 REPO = Path(os.environ.get("S2T_REPO", "/repo"))  # scratch worktrees only for development; registered checks use /repo
 EVID = VERIF / "evidence"
@@ -233,7 +233,7 @@ class Ctx:
                     if q.exists():
                         q.unlink()
             cmd = f"timeout {timeout} make -j16 " + " ".join(targets)
-            self.checker_cmds.append(f"cd /verif/coq && {cmd}")
+            self.checker_cmds.append(f"cd {COQ} && {cmd}")
             rc, out = sh(cmd, cwd=COQ, timeout=timeout + 30)
         return rc == 0, out
 
@@ -258,7 +258,7 @@ class Ctx:
         log2 = ""
         if ok:
             cmd = f"timeout {timeout} coqc -q -Q . S2T {props_v}"
-            self.checker_cmds.append(f"cd /verif/coq && {cmd}")
+            self.checker_cmds.append(f"cd {COQ} && {cmd}")
             with open(COQ / ".build.lock", "w") as lk:
                 fcntl.flock(lk, fcntl.LOCK_EX)
                 rc, log2 = sh(cmd, cwd=COQ, timeout=timeout + 30)
